@@ -87,6 +87,14 @@ Theorem C14_registered_only_management : forall w op w' o addr,
 Proof. exact registered_only. Qed.
 Print Assumptions C14_registered_only_management.
 
+(** upgradePair names its pair by tokens and resolves it through the registry *)
+Theorem C14_upgrade_only_registered : forall w c a b w' o, Reachable w ->
+  ep_upgrade_pair w c a b = Ok (w', o) ->
+  c = r_owner (w_r w) /\ r_active (w_r w) = true /\ w' = w /\
+  exists p, get_pair (r_map (w_r w)) a b = Some p /\ Registered w p.
+Proof. exact reach_upgrade_pair. Qed.
+Print Assumptions C14_upgrade_only_registered.
+
 (** setSwapEnabledByUser (the one way a non-owner configures and resumes a pair): only on a registered
     pair in ActiveNoSwaps state whose LP token the locked position wraps, only by that pair's initial
     liquidity adder; its whole effect is the pair's own setFeePercents + resume *)
